@@ -10,7 +10,7 @@
     the `core` correspondence family runs against the real chains. *)
 From IBC Require Import Core.ChainExamples.
 From IBC Require Import Lib.Bytes Core.Height Core.HeightFacts Core.Chain Core.World Core.WorldFacts Core.ChainFacts Core.ChainInv Core.ChainThms
-  Core.WorldInv Core.WorldInv2 Core.WorldInv3 Core.WorldThm Core.WorldV2 Core.WorldClose Core.WorldEarly Core.ChainBack Core.WorldOrd Corr.CoreFam Corr.CoreFamFacts.
+  Core.WorldInv Core.WorldInv2 Core.WorldInv3 Core.WorldThm Core.WorldV2 Core.WorldClose Core.WorldEarly Core.ChainBack Core.WorldOrd Core.WorldCloseOrd Corr.CoreFam Corr.CoreFamFacts.
 Local Open Scope N_scope.
 
 (** source side, v1: a timeout is processed only if the consensus state at the proof height exists, the
@@ -237,6 +237,28 @@ Theorem C04_log_records_accepted_on_close g pre o out e :
     e = mkCE (p_sp p, p_sc p, p_seq p) (p_dp p, p_dc p, p_seq p) (c_ord ch) (k_client kk).
 Proof. exact (gupd3_in g pre o out e). Qed.
 Print Assumptions C04_log_records_accepted_on_close.
+
+(** the same for MsgTimeoutOnClose: no ordering hypothesis, ends that agree at the start *)
+Theorem C04_end_to_end_on_close_no_ordering_hypothesis x l :
+  WI3O x -> good_steps3 x l ->
+  let y := irun3 x l in
+  let lh := w_lh (w3 y) in
+  (forall e r, In e (ca y) -> In r (g_rlog (gb (iw1 (iw2 y)))) ->
+     ce_client e <> lh -> r_client r <> lh -> ce_dst e = r_dst r -> False) /\
+  (forall e r, In e (cb y) -> In r (g_rlog (ga (iw1 (iw2 y)))) ->
+     ce_client e <> lh -> r_client r <> lh -> ce_dst e = r_dst r -> False).
+Proof. exact (timeout_on_close_excludes_receive_ord x l). Qed.
+Print Assumptions C04_end_to_end_on_close_no_ordering_hypothesis.
+
+Theorem C04_invariant_initially_on_close_with_agreeing_ends w :
+  base_chain (wa w) -> base_chain (wb w) -> base_clients (wa w) (wb w) -> base_clients (wb w) (wa w) ->
+  Agree (wa w) (wb w) -> Agree (wb w) (wa w) ->
+  WI3O (mkIW3 (mkIW2 (mkIW w ghost0 ghost0) ghost20 ghost20) [] []).
+Proof. exact (wi3o_base w). Qed.
+Print Assumptions C04_invariant_initially_on_close_with_agreeing_ends.
+
+Example C04_on_close_agreeing_ends_nonvacuous : WI3O exc0 /\ good_steps3 exc0 exc_steps.
+Proof. exact (conj exc_wi3o exc_good). Qed.
 
 (** non-vacuity (on close): send on A, the channel end on B is closed, B's next block, client update on A,
     MsgTimeoutOnClose on A with honest proofs of version 11 (closed channel end, absent receipt): accepted and logged *)
